@@ -788,7 +788,7 @@ def gen_cases(ctx, im: Impl, gen: Gen):
         yield "wire-empty", wire_payload(flags), True
     yield "wire-nv", wire_payload(256, sections={"nv": b"AttachItemID STRING RW SV abc"}), True
     # every flag combination x object kind with generated contents
-    per = ctx.pick(1, 12)
+    per = ctx.pick(1, 5)
     quick_pcodes = ctx.pick(3, 9)
     domain = []
     for flags in range(ALL_FLAGS):
@@ -800,7 +800,7 @@ def gen_cases(ctx, im: Impl, gen: Gen):
                     domain.append(p)
                     yield "domain", p, True
     # mutations of well-formed payloads
-    nmut = ctx.pick(4000, 120000)
+    nmut = ctx.pick(4000, 60000)
     for _ in range(nmut):
         kind, q = mutate(rng, rng.choice(domain))
         yield "mut-" + kind, q, False
@@ -863,7 +863,7 @@ def correspond(ctx):
              "re-encoding through the template; and the extracted Coq fast_read/decl_read/decl_write on the generated template vs "
              "the real decoders (accept/reject, every field value or window, unread rest, re-encoded bytes).  Non-trivial = "
              "distinct payload accepted by the template with at least one optional section present"
-             % (ctx.pick(3, 9), ctx.pick(1, 12)))
+             % (ctx.pick(3, 9), ctx.pick(1, 5)))
     seen = set()
     cases = []
     dist = {}
@@ -956,19 +956,26 @@ def shrink(im: Impl, v):
 
 
 def search(ctx, hints):
+    """a concrete payload on which the implementation violates C13 and that is not an already recorded finding"""
+    from harness.common import framework
     im = impl()
+    known = framework.load_findings(PROP_ID)
+
+    def fresh(v):
+        return v is not None and framework._matching_known(v, known) is None
+
     for h in hints:
         d = h.get("disagreement") or h.get("impl_violation")
         if d and "payload" in d:
             p = bytes.fromhex(d["payload"])
             for domain in (True, False):
                 v = check_property(im, p, domain)
-                if v:
+                if fresh(v):
                     return shrink(im, v)
     gen = Gen(ctx.rng, im)
     for kind, p, domain in gen_cases(ctx, im, gen):
         v = check_property(im, p, domain)
-        if v:
+        if fresh(v):
             v["kind"] = kind
             return shrink(im, v)
     return None
